@@ -104,6 +104,10 @@ type Client struct {
 	Filter func(c map[string]any) bool
 	// ListHide hides the given keys from List and Get answers (a lagging informer cache).
 	ListHide map[Key]bool
+	// Stale: keys for which Get answers with the content before the object's latest write (an
+	// informer cache one event behind); has no effect on objects written once only.
+	// (the value counts how many more Gets are answered that way: the cache catches up)
+	Stale map[Key]int
 }
 
 var _ client.Client = (*Client)(nil)
@@ -237,6 +241,14 @@ func (c *Client) Get(_ context.Context, key client.ObjectKey, obj client.Object,
 	if (info.Namespaced && k.Namespace == "") || !c.visible(o) || c.ListHide[k] {
 		res = apierrors.NewNotFound(gr(k), k.Name)
 	} else {
+		if c.Stale[k] > 0 && o.Prev != nil {
+			c.Stale[k]--
+			r.Resp = o.Prev
+			if err := FromContent(o.Prev, obj); err != nil {
+				return err
+			}
+			return c.after(r, nil)
+		}
 		r.Resp = o.Content
 		if err := FromContent(answer(o), obj); err != nil {
 			return err
